@@ -113,6 +113,10 @@ pub fn run(e: &Engine) {
         Tier::Thorough => (48, 3_000_000),
     };
     e.run_prop("large-recipes", ncases, || crate::props::c01::recipe_strategy(max_n), |c| c.to_json(), check_recipe);
+    // one file beyond 16 MiB in every tier: address deltas of 4 bytes
+    let huge = vec![Recipe { kind: 1, n: e.tier.pick(2_300_000, 4_000_000), seed: e.seed ^ 0x16, fanout: 16, keylen: 12, values: 2 }];
+    e.run_list("one-file-over-16MiB", &huge, |r| r.to_json(), check_recipe);
+    e.require_class("delta_width_4", 1);
     for cls in ["anytrans_ntrans_256", "anytrans_ntrans_33", "anytrans_ntrans_32", "anytrans_ntrans_0_final_out", "onetransnext_common_input", "onetrans_explicit_input", "delta_width_2", "delta_width_3", "root_is_sentinel"] {
         e.require_class(cls, 1);
     }
